@@ -23,6 +23,18 @@ type LoopSpec struct {
 	HasAssigns bool
 }
 
+// GhostVar: "ghostvar name type = init".
+type GhostVar struct {
+	Name, Type string
+	Init       *Clause
+}
+
+// GhostSet: "after <callee>[#site] set name = expr".
+type GhostSet struct {
+	Name string
+	E    *Clause
+}
+
 type FuncSpec struct {
 	Name       string
 	Trusted    bool
@@ -41,6 +53,8 @@ type FuncSpec struct {
 	NoPanic    bool // "nopanic": callee never panics when its preconditions hold (trusted only)
 	Nilable    map[string]bool
 	Hints      map[string][]*Clause // callee name -> facts asserted (then assumed) before each call to it
+	GhostVars  []*GhostVar           // function-local ghost variables (history the code does not keep)
+	Sets       map[string][]*GhostSet // callee name[#site] -> ghost assignments made right after that call returns
 }
 
 type PureFn struct {
@@ -192,7 +206,7 @@ func (sp *Specs) LoadFile(path string, stripPrefix string) error {
 			if _, dup := sp.Funcs[fs[0]]; dup {
 				return fmt.Errorf("%s: duplicate contract for %s", src, fs[0])
 			}
-			cur = &FuncSpec{Name: fs[0], Loops: map[int]*LoopSpec{}, Src: src, File: path, Nilable: map[string]bool{}, Hints: map[string][]*Clause{}}
+			cur = &FuncSpec{Name: fs[0], Loops: map[int]*LoopSpec{}, Src: src, File: path, Nilable: map[string]bool{}, Hints: map[string][]*Clause{}, Sets: map[string][]*GhostSet{}}
 			for _, a := range fs[1:] {
 				switch a {
 				case "trusted":
@@ -239,6 +253,40 @@ func (sp *Specs) LoadFile(path string, stripPrefix string) error {
 				return err
 			}
 			cur.Hints[fs[0]] = append(cur.Hints[fs[0]], c)
+		case "ghostvar":
+			// ghostvar <name> <type> = <expr>
+			if cur == nil {
+				return fmt.Errorf("%s: ghostvar outside func", src)
+			}
+			eqi := strings.Index(rest, "=")
+			fs := strings.Fields(rest)
+			if eqi < 0 || len(fs) < 4 {
+				return fmt.Errorf("%s: ghostvar <name> <type> = <expr>", src)
+			}
+			head := strings.Fields(rest[:eqi])
+			if len(head) != 2 {
+				return fmt.Errorf("%s: ghostvar <name> <type> = <expr>", src)
+			}
+			c, err := mkClause(strings.TrimSpace(rest[eqi+1:]))
+			if err != nil {
+				return err
+			}
+			cur.GhostVars = append(cur.GhostVars, &GhostVar{Name: head[0], Type: head[1], Init: c})
+		case "after":
+			// after <callee>[#site] set <name> = <expr>
+			if cur == nil {
+				return fmt.Errorf("%s: after outside func", src)
+			}
+			fs := strings.Fields(rest)
+			if len(fs) < 5 || fs[1] != "set" || fs[3] != "=" {
+				return fmt.Errorf("%s: after <callee> set <name> = <expr>", src)
+			}
+			text := strings.TrimSpace(rest[strings.Index(rest, "=")+1:])
+			c, err := mkClause(text)
+			if err != nil {
+				return err
+			}
+			cur.Sets[fs[0]] = append(cur.Sets[fs[0]], &GhostSet{Name: fs[2], E: c})
 		case "nilable":
 			if cur == nil {
 				return fmt.Errorf("%s: nilable outside func", src)
